@@ -108,7 +108,8 @@ def _c12_replay(tf, r):
     hist, op, k, auto = _tuplify(r["history"]), _tuplify(r["op"]), r["crash_before_call"], r["auto_index"]
     before = iotie.logical_contents(tf, str(work / "lb"), hist, auto)
     after = iotie.logical_contents(tf, str(work / "la"), list(hist) + [op], auto)
-    cr = iotie.crash_run(tf, str(work / "cr"), hist, op, k, auto)
+    iotie.HARDLINK = bool(r.get("database_file_has_a_second_hard_link"))
+    cr = iotie.crash_run(tf, str(work / "cr"), hist, op, k, auto, other_fs=bool(r.get("temp_dir_on_other_filesystem")))
     ok = c12.prefix_ok(cr["state"], before, after) and not isinstance(cr["lib_state"], tuple) and c12.prefix_ok(cr["lib_state"], before, after)
     print(f"crash before call {k}: the file now decodes to {len(cr['state']) if cr['state'] is not None else None} points (old {len(before)}, new {len(after)}); allowed: {ok}")
     return 0 if ok else 1
